@@ -93,3 +93,18 @@ pub fn partition_range_indices(arrays: &Vec<ArrayRef>, split_points: &mut Vec<Sp
         res is Ok ==> forall|p: int| 0 <= p < old(indices)@.len() ==>
             (#[trigger] final(indices)@[p])@ == old(indices)@[p]@ + range_routed(arrays@, old(split_points)@, old(sort_options)@, p, arrays_rows(arrays@) as int),
 { unimplemented!() }
+
+// ---- partition_grouped_take: index bookkeeping ----
+/// R13: stands for `reordered_indices.extend_from_slice(p_indices)` with `p_indices = &mut indices[partition]`
+#[verifier::external_body]
+pub fn extend_from_bucket(out: &mut Vec<u32>, indices: &[Vec<u32>], partition: usize)
+    requires partition < indices@.len(),
+    ensures final(out)@ == old(out)@ + indices@[partition as int]@,
+{ unimplemented!() }
+/// R13: stands for `p_indices.clear()` with `p_indices = &mut indices[partition]`
+#[verifier::external_body]
+pub fn clear_bucket(indices: &mut [Vec<u32>], partition: usize)
+    requires partition < old(indices)@.len(),
+    ensures final(indices)@.len() == old(indices)@.len(), final(indices)@[partition as int]@.len() == 0,
+        forall|q: int| 0 <= q < old(indices)@.len() && q != partition ==> final(indices)@[q] == old(indices)@[q],
+{ unimplemented!() }
